@@ -66,6 +66,10 @@ func tokensConsume(tokens []token) ([]token, []token) {
 		// strip escapes, such as ` from `foo`, this allows to use keywords as field names
 		length := len(t.str)
 		if length == 0 {
+			// Skip empty barewords, but keep the empty quoted string ("").
+			if !t.isBareword {
+				consumed = append(consumed, t)
+			}
 			continue
 		}
 		if t.isBareword && length >= 2 && t.str[0] == '`' && t.str[length-1] == '`' {
